@@ -40,9 +40,19 @@ func trBaseIdent(e ast.Expr) *ast.Ident {
 			e = x.X
 		case *ast.StarExpr:
 			e = x.X
+		case *ast.UnaryExpr:
+			if x.Op != token.AND {
+				return nil
+			}
+			e = x.X // &m: the map the pointer points to (trans_units_perf.go)
 		case *ast.CallExpr:
 			// dict.GetDefault(m, k, ctor)[k2] = v assigns to m
 			if sel, ok := x.Fun.(*ast.SelectorExpr); ok && sel.Sel.Name == "GetDefault" && len(x.Args) == 3 {
+				e = x.Args[0]
+				continue
+			}
+			// get(&m)[k] = v assigns to m (performance.get, trans_units_perf.go)
+			if id, ok := x.Fun.(*ast.Ident); ok && id.Name == "get" && len(x.Args) == 1 {
 				e = x.Args[0]
 				continue
 			}
@@ -110,6 +120,7 @@ func (c *trCtx) assignedIn2(through bool, nodes ...ast.Node) []types.Object {
 			case *ast.CallExpr:
 				c.markingCall = true
 				c.treeAssignedIn(x, through, mark, assigned)
+				c.perfAssignedIn(x, mark, assigned)
 				if id, ok := x.Fun.(*ast.Ident); ok && id.Name == "delete" && len(x.Args) == 2 {
 					mark(x.Args[0])
 				}
@@ -228,6 +239,9 @@ func (c *trCtx) callArg(x *ast.CallExpr, recv ast.Expr, tf *trFunc, mi int) ast.
 		mi--
 	}
 	if mi < len(x.Args) {
+		if m, ok := trAddrOfMap(c.info(), x.Args[mi]); ok {
+			return m // &m for a parameter *map: the map is the target (trans_units_perf.go)
+		}
 		return x.Args[mi]
 	}
 	return nil
@@ -415,7 +429,7 @@ func (c *trCtx) stmt(s ast.Stmt, k trK) trLines {
 			trFail(x.Pos(), "return of a multi-valued call is outside the subset")
 		}
 		for i, r := range x.Results {
-			vals = append(vals, c.exprAs(r, c.resultTypes[i]))
+			vals = append(vals, c.perfRetValue(r, i))
 		}
 		pre := c.takePre()
 		return trWrapPre(pre, c.returnTerm(vals, x.Pos()))
@@ -508,6 +522,9 @@ func (c *trCtx) exprStmt(x *ast.ExprStmt, k trK) trLines {
 	if r, ok := c.treeStmt(call, nil, false, k); ok {
 		return r
 	}
+	if r, ok := c.printfStmt(call, k); ok {
+		return r // fmt.Printf in a closure: appended to the log `stdout` (trans_units_perf.go)
+	}
 	if out, ok := c.sortStmt(call, k); ok {
 		return out // compare.Sort(X, F) (trans_units_jprinter.go)
 	}
@@ -558,7 +575,7 @@ func (c *trCtx) declStmt(x *ast.DeclStmt, k trK) trLines {
 		}
 		for i, n := range vs.Names {
 			obj := c.info().Defs[n]
-			ty := c.leanType(obj.Type(), n.Pos())
+			ty := c.varType(obj, n.Pos())
 			val := "GoZero.zero"
 			if len(vs.Values) > 0 {
 				val = c.expr(vs.Values[i])
@@ -605,11 +622,19 @@ func (c *trCtx) storeTerm(lhs ast.Expr, val string, pos token.Pos) (name, typ, t
 		if !ok || (v.Pkg() != nil && v.Parent() == v.Pkg().Scope()) {
 			trFail(pos, "assignment to %s, which is not a local variable, is outside the subset", l.Name)
 		}
-		return c.local(v), c.leanType(v.Type(), pos), val
+		return c.local(v), c.varType(v, pos), val
+	case *ast.CallExpr:
+		if m, ok := c.perfGetArg(l); ok {
+			c.t.checkPinned(c.calledFunc(l), pos)
+			return c.storeTerm(m, val, pos) // get(&m) = …: the map itself (trans_units_perf.go)
+		}
 	case *ast.SelectorExpr:
 		sel, ok := c.info().Selections[l]
 		if !ok || sel.Kind() != types.FieldVal || len(sel.Index()) != 1 {
 			trFail(pos, "assignment to %s is outside the subset", trSrc(l))
+		}
+		if n, ty, tm, ok := c.nilPtrStore(l, val, pos); ok {
+			return n, ty, tm // through a nilable pointer (trans_units_perf.go)
 		}
 		if trIsTreeNode(c.typeOf(l.X)) && l.Sel.Name != "Value" {
 			trFail(pos, "assignment to the field %s of a multimap node is outside the subset (only Value)", l.Sel.Name)
@@ -653,6 +678,11 @@ func (c *trCtx) storeTerm(lhs ast.Expr, val string, pos token.Pos) (name, typ, t
 		}
 		switch tx.Underlying().(type) {
 		case *types.Map:
+			if sel, ok := c.nilMapSel(l.X); ok {
+				// a map field whose nil-ness is tracked: storing into a nil map panics (trans_units_perf.go)
+				m := c.hoist("nilMapE "+c.nilMapRaw(sel), pos)
+				return c.storeTerm(l.X, "(some (AMap.set "+m+" "+c.expr(l.Index)+" "+val+"))", pos)
+			}
 			inner := "(AMap.set " + c.expr(l.X) + " " + c.expr(l.Index) + " " + val + ")"
 			return c.storeTerm(l.X, inner, pos)
 		case *types.Slice:
@@ -701,6 +731,9 @@ func (c *trCtx) assign(x *ast.AssignStmt, k trK) trLines {
 		trFail(x.Pos(), "assignment with %d targets and %d values is outside the subset", len(x.Lhs), len(x.Rhs))
 	}
 	if len(x.Lhs) == 1 {
+		if c.perfGetAlias(x) {
+			return k() // x := get(&m): another name of m (trans_units_perf.go)
+		}
 		if out, ok := c.closureRecStmt(x, k); ok {
 			return out // x := &T{F: func…} (trans_units_jprinter.go)
 		}
@@ -726,7 +759,9 @@ func (c *trCtx) assign(x *ast.AssignStmt, k trK) trLines {
 			}
 		}
 		var val string
-		if _, nilable := c.nilableSel(x.Lhs[0]); nilable && x.Tok == token.ASSIGN {
+		if v, ok := c.perfAssignValue(x); ok {
+			val = v
+		} else if _, nilable := c.nilableSel(x.Lhs[0]); nilable && x.Tok == token.ASSIGN {
 			val = c.nilableValue(x.Rhs[0], c.typeOf(x.Lhs[0]))
 		} else if x.Tok == token.ASSIGN {
 			val = c.exprAs(x.Rhs[0], c.typeOf(x.Lhs[0]))
